@@ -59,6 +59,9 @@ def override_name(alias_id):
     return f"__spec_classes_Alias_{ATTR[alias_id]}_override"
 
 
+PROXY = {"built": 0, "bad": []}
+
+
 class World:
     """The classes of one case: a host class carrying the alias and a node class for
     the objects below it."""
@@ -76,10 +79,18 @@ class World:
             kw["fallback"] = self.fallback
         else:
             self.fallback = None
-        with warnings.catch_warnings():
-            warnings.simplefilter("ignore")
+        with warnings.catch_warnings(record=True) as rec:
+            warnings.simplefilter("always")
             if cfg["dep"]:
                 self.descr = DeprecatedAlias(self.path_str, passthrough=cfg["pt"], **kw)
+            elif cfg.get("proxy"):
+                # attr_proxy.py: AttrProxy is Alias plus one DeprecationWarning at construction
+                from spec_classes import AttrProxy
+                self.descr = AttrProxy(self.path_str, passthrough=cfg["pt"], **kw)
+                PROXY["built"] += 1
+                if len([w for w in rec if issubclass(w.category, DeprecationWarning)]) != 1 \
+                        or not isinstance(self.descr, Alias):
+                    PROXY["bad"].append(self.path_str)
             else:
                 self.descr = Alias(self.path_str, passthrough=cfg["pt"], **kw)
         ann = {n: (int if i in host["int"] else typing.Any) for i, n in ATTR.items() if i not in (5, 6)}
@@ -145,23 +156,27 @@ class World:
             return ("I", out)
         return ("s", -95)
 
-    def mutable_ids(self, o, acc=None):
+    def mutable_ids(self, o, acc=None, objs=None):
         acc = set() if acc is None else acc
         if isinstance(o, dict):
             if id(o) not in acc:
                 acc.add(id(o))
+                if objs is not None:
+                    objs.append(o)
                 for v in o.values():
-                    self.mutable_ids(v, acc)
+                    self.mutable_ids(v, acc, objs)
         elif isinstance(o, (self.Host, self.Node, _Bag)):
             if id(o) not in acc:
                 acc.add(id(o))
+                if objs is not None:
+                    objs.append(o)
                 for v in object.__getattribute__(o, "__dict__").values():
-                    self.mutable_ids(v, acc)
+                    self.mutable_ids(v, acc, objs)
         return acc
 
     def note(self, o):
-        self.keep.append(o)
-        self.known |= self.mutable_ids(o)
+        # every mutable object ever seen stays alive, so that an id is never reused
+        self.known |= self.mutable_ids(o, None, self.keep)
 
     def classify(self, r):
         """outcome of a read: the descriptor, an existing object / immutable value, or a
@@ -433,6 +448,8 @@ def gen_config(rng, tier, i):
         cfg["bound"] = False
     if rng.random() < 0.02:
         cfg["path"] = []
+    if not cfg["dep"] and rng.random() < 0.1:
+        cfg["proxy"] = True
     return host, cfg
 
 
@@ -492,9 +509,49 @@ def gen_ops(rng, host, cfg, maxlen):
     return ops
 
 
+EXH_OPS = [("RdAlias",), ("WrAlias", ("i", 1)), ("DelAlias",), ("RdTarget",), ("WrTarget", ("i", 2)),
+           ("DelTarget",), "COPY"]
+
+
+def exhaustive_cases(rng, tier):
+    """every sequence of length 3 (quick) / 4 (thorough) over
+    {read/write/delete alias, read/write/delete target, copy} for a seeded choice of
+    core configurations; an operation after a copy acts on the newest instance.
+    (Judged after every operation, so all shorter sequences are covered as prefixes.)"""
+    quick = tier == "quick"
+    length = 3 if quick else 4
+    shapes = [PATH_SHAPES[0], PATH_SHAPES[2], PATH_SHAPES[4], PATH_SHAPES[6], PATH_SHAPES[7]]
+    core = []
+    for spec in (False, True):
+        for pt in (False, True):
+            for tr in (None, "FInc"):
+                for fb in (None, ("i", 0), ("D", [(0, ("i", 1))])):
+                    for dep in (False, True):
+                        for path in shapes:
+                            core.append((spec, pt, tr, fb, dep, path))
+    rng.shuffle(core)
+    chosen = core[:20 if quick else 40]
+    out = []
+    for spec, pt, tr, fb, dep, path in chosen:
+        host = {"spec": spec, "int": sorted(INT_ATTRS + ([5] if spec else []))}
+        cfg = {"path": path, "pt": pt, "tr": tr, "fb": fb, "name": 5, "bound": True, "dep": dep, "quotes": 0}
+        init = happy_tree(rng, path, present=rng.random() < 0.75)
+        copy_op = "WithAlias" if spec and rng.random() < 0.7 else "DeepCopy"
+        for seq in itertools.product(EXH_OPS, repeat=length):
+            ops, cur, n = [], 0, 1
+            for o in seq:
+                if o == "COPY":
+                    ops.append((copy_op, cur, ("i", 3)) if copy_op == "WithAlias" else (copy_op, cur))
+                    cur, n = n, n + 1        # run_impl redirects to instance 0 when the helper raised
+                else:
+                    ops.append(("On", cur, o))
+            out.append((host, cfg, init, ops))
+    return out, len(chosen), length
+
+
 def generate(rng, tier):
     quick = tier == "quick"
-    n = 3600 if quick else 40000
+    n = 10000 if quick else 100000
     maxlen = 4 if quick else 7
     cases = []
     for i in range(n):
@@ -535,17 +592,53 @@ def run_impl(case):
     return done, seen
 
 
-def evaluate(cases, tag="c"):
-    terms, runs, index = [], [], []
-    for i, case in enumerate(cases):
-        ops, seen = run_impl(case)
-        runs.append((ops, seen))
+class Stats:
+    def __init__(self):
+        self.ophist, self.errhist, self.lenhist, self.cfghist, self.shapes = {}, {}, {}, {}, {}
+        self.distinct = set()
+        self.unparsed = self.operations = self.warn_ops = 0
+
+    def add(self, case, ops, seen):
+        host, cfg, init, _ = case
         if ops is None:
-            continue
-        index.append(i)
-        terms.append(c_case(case[0], case[1], case[2], ops, seen))
-    bad, logs = coq_eval("C18", PRELUDE, "check_case", terms, shard=250, tag=tag, case_type="case")
-    return [(index[j], code) for j, code in bad], logs, runs
+            self.unparsed += 1
+            return
+        import hashlib
+        self.distinct.add(hashlib.sha1(json.dumps([host, cfg, init, ops], sort_keys=True, default=str).encode()).digest()[:10])
+        self.operations += len(ops)
+        self.lenhist[len(ops)] = self.lenhist.get(len(ops), 0) + 1
+        key = (f"{'spec' if host['spec'] else 'plain'}/pt={int(cfg['pt'])}/tr={cfg['tr']}/"
+               f"fb={'none' if cfg['fb'] is None else cfg['fb'][0]}/dep={int(cfg['dep'])}")
+        self.cfghist[key] = self.cfghist.get(key, 0) + 1
+        sh = "".join(s[0] for s in cfg["path"]) or "empty"
+        self.shapes[sh] = self.shapes.get(sh, 0) + 1
+        for o, s in zip(ops, seen):
+            k = op_kind(o)
+            self.ophist[k] = self.ophist.get(k, 0) + 1
+            e = s[0][1] if s[0][0] == "Err" else ("fresh" if s[0][0] == "OFresh" else "ok")
+            self.errhist[e] = self.errhist.get(e, 0) + 1
+            if s[1]:
+                self.warn_ops += 1
+
+
+def evaluate(cases, tag="c", stats=None, batch=20000):
+    """run the implementation and judge every case in Coq; batches keep memory flat"""
+    bad, logs = [], []
+    for b0 in range(0, len(cases), batch):
+        terms, index = [], []
+        for i in range(b0, min(b0 + batch, len(cases))):
+            case = cases[i]
+            ops, seen = run_impl(case)
+            if stats is not None:
+                stats.add(case, ops, seen)
+            if ops is None:
+                continue
+            index.append(i)
+            terms.append(c_case(case[0], case[1], case[2], ops, seen))
+        b, lg = coq_eval("C18", PRELUDE, "check_case", terms, shard=250, tag=f"{tag}{b0 // batch}", case_type="case")
+        bad += [(index[j], code) for j, code in b]
+        logs += lg
+    return bad, logs
 
 
 def shrink(case, code):
@@ -563,7 +656,7 @@ def shrink(case, code):
             cands.append((host, dict(cur[1], dep=False), init, cur[3]))
         if not cands:
             break
-        bad, _, _ = evaluate(cands, tag="s")
+        bad, _ = evaluate(cands, tag="s")
         hit = [i for i, c in bad if c == code]
         if not hit:
             break
@@ -614,12 +707,14 @@ def main(tier, replay=None):
             print("replay (parser):", bad or "passes now")
             return 1 if bad else 0
         case = from_json(r)
-        bad, logs, runs = evaluate([case], tag="r")
+        bad, logs = evaluate([case], tag="r")
         print("replay:", "still failing code=%s" % bad[0][1] if bad else "passes now", logs)
-        print("observed now:", runs[0][1])
+        print("observed now:", run_impl(case)[1])
         return 1 if bad or logs else 0
     chk.proofs()
     cases = generate(chk.rng, tier)
+    exh, exh_cfgs, exh_len = exhaustive_cases(chk.rng, tier)
+    cases = exh + cases
     # corpus of minimised past failures first
     import os
     cdir = os.path.join(os.path.dirname(os.path.dirname(os.path.abspath(__file__))), "corpus", "C18")
@@ -629,14 +724,23 @@ def main(tier, replay=None):
             if f.endswith(".json"):
                 corpus.append(from_json(json.load(open(os.path.join(cdir, f)))))
     cases = corpus + cases
-    bad, logs, runs = evaluate(cases)
+    st = Stats()
+    bad, logs = evaluate(cases, stats=st)
     # parser: validated, not proved
     pn, pbad = parser_check(sorted({(tuple(c[1]["path"]), c[1].get("quotes", 0)) for c in cases}))
     for b in pbad[:3]:
         chk.violation(f"Alias path parser disagrees with the harness split: {b}",
                       dict(b, kind="parser"), sig={"op": "parser"}, no_input=False)
+    for b in PROXY["bad"][:1]:
+        chk.violation(f"AttrProxy({b!r}) is not an Alias that warns exactly once when constructed",
+                      {"kind": "attr_proxy", "path_string": b}, sig={"op": "attr_proxy"}, no_input=False)
+    # one representative (the shortest case) per (host kind, passthrough, deprecated, code)
+    groups = {}
+    for i, code in sorted(bad, key=lambda b: (-b[1], len(cases[b[0]][3]))):
+        g = (cases[i][0]["spec"], cases[i][1]["pt"], cases[i][1]["dep"], code)
+        groups.setdefault(g, (i, code))
     reported = set()
-    for i, code in sorted(bad, key=lambda b: (-b[1], len(cases[b[0]][3])))[:30]:
+    for i, code in sorted(groups.values(), key=lambda b: (-b[1], len(cases[b[0]][3])))[:6]:
         small = shrink(cases[i], code)
         ops2, seen2 = run_impl(small)
         last = op_kind(ops2[-1])
@@ -653,47 +757,31 @@ def main(tier, replay=None):
         chk.violation("correspondence evaluation failed: " + lg[-500:], {"kind": "coq-eval", "log": lg}, no_input=True)
 
     # ---- evidence
-    ophist, errhist, lenhist, cfghist = {}, {}, {}, {}
-    shapes = {}
-    distinct = set()
-    unparsed = 0
-    for case, (ops, seen) in zip(cases, runs):
-        host, cfg, init, _ = case
-        if ops is None:
-            unparsed += 1
-            continue
-        distinct.add(json.dumps([host, cfg, init, ops], sort_keys=True, default=str))
-        lenhist[len(ops)] = lenhist.get(len(ops), 0) + 1
-        key = f"{'spec' if host['spec'] else 'plain'}/pt={int(cfg['pt'])}/tr={cfg['tr']}/fb={'none' if cfg['fb'] is None else cfg['fb'][0]}/dep={int(cfg['dep'])}"
-        cfghist[key] = cfghist.get(key, 0) + 1
-        sh = "".join(s[0] for s in cfg["path"]) or "empty"
-        shapes[sh] = shapes.get(sh, 0) + 1
-        for o, s in zip(ops, seen):
-            k = op_kind(o)
-            ophist[k] = ophist.get(k, 0) + 1
-            e = s[0][1] if s[0][0] == "Err" else ("fresh" if s[0][0] == "OFresh" else "ok")
-            errhist[e] = errhist.get(e, 0) + 1
     extra = {
         "correspondence": {
-            "cases": len(cases), "operations": sum(len(r[0]) for r in runs if r[0] is not None),
-            "cases_skipped_because_the_parser_rejected_the_path": unparsed, "disagreements": len(bad),
-            "op_histogram": ophist, "outcome_histogram": errhist, "length_histogram": lenhist,
-            "path_shape_histogram": shapes, "configurations_seen": len(cfghist),
-            "configuration_histogram_top": dict(sorted(cfghist.items(), key=lambda kv: -kv[1])[:12]),
+            "cases": len(cases), "operations": st.operations,
+            "operations_with_warnings": st.warn_ops,
+            "cases_skipped_because_the_parser_rejected_the_path": st.unparsed, "disagreements": len(bad),
+            "op_histogram": st.ophist, "outcome_histogram": st.errhist, "length_histogram": st.lenhist,
+            "path_shape_histogram": st.shapes, "configurations_seen": len(st.cfghist),
+            "configuration_histogram_top": dict(sorted(st.cfghist.items(), key=lambda kv: -kv[1])[:12]),
             "hosts": ["plain class", "spec class (alias annotated: managed, type-checked)"],
-            "corpus_cases": len(corpus),
+            "corpus_cases": len(corpus), "exhaustive_cases": len(exh), "random_cases": len(cases) - len(exh) - len(corpus),
         },
+        "attr_proxy": {"constructed": PROXY["built"], "not_alias_plus_one_warning": len(PROXY["bad"])},
         "parser_validated_not_proved": {"path_strings_compared": pn, "mismatches": len(pbad),
                                         "invalid_strings_rejected": len(INVALID_PATHS)},
-        "evaluations": len(cases), "distinct_nontrivial": len(distinct),
+        "evaluations": len(cases), "distinct_nontrivial": len(st.distinct),
         "rule": "case = (host kind, alias configuration incl. parsed path, initial instance tree, operation list); "
                 "configurations sampled from passthrough x transform pool x fallback pool x DeprecatedAlias x path shape "
                 "(10 fixed shapes + random paths) x plain/spec host x typed/untyped alias; sequences of 1..4 (quick) / 1..7 "
                 "(thorough) operations over read/write/delete alias, class-level read, read/write/delete target, deepcopy, "
                 "with_<alias>, with_<target>; distinct = distinct (host, configuration, initial tree, operations); every case "
                 "has >= 1 operation and is judged after every operation",
-        "samples": [to_json(cases[j]) for j in (len(corpus), len(cases) // 2, len(cases) - 1)],
-        "exhaustive": False,
+        "samples": [to_json(cases[j]) for j in (len(corpus), len(corpus) + len(exh) + 1, len(cases) - 1)],
+        "exhaustive": {"scope": f"all {len(EXH_OPS)}^{exh_len} sequences of length {exh_len} over read/write/delete alias, "
+                                f"read/write/delete target, copy (deepcopy or with_<alias>), for {exh_cfgs} seeded core "
+                                "configurations; everything else is sampled", "cases": len(exh)},
     }
     return chk.finish(
         trusted_base=["Coq 8.16.1 kernel and vm_compute",
